@@ -43,7 +43,8 @@ WITNESS_EXPRS = {
 
 CLASS_WITNESSES = ["AnyLetter()", "AnyButDigit()", "AnyFrom('a')", "AnyFrom('.', '-')", "AnyButFrom('a', ']')", "AnyBetween('a', 'f')",
                    "AnyButBetween('0', '5')", "Any()", "AnyWordChar()", "AnyWordChar(is_global=True)", "AnyButWordChar(is_global=True)",
-                   "AnyWhitespace()", "AnyFrom(Newline())", "~AnyFrom('x')"]
+                   "AnyWhitespace()", "AnyFrom(Newline())", "~AnyFrom('x')", "AnyFrom('a', 'c', 'e', '1')", "AnyFrom('b', 'd', 'z')",
+                   "AnyButFrom('b', 'c', 'k')"]
 
 
 def witnesses(tname, repeatable=None):
